@@ -10,7 +10,9 @@ import RModel.Gen.HistoryFlags
     scanner.rs      `generate_plan_id` = sha256(search ++ replace ++ options-debug ++ unix-seconds)[..16]
                     (no separator between search and replace: the hash input is their concatenation)
     apply.rs        `apply_plan`: content edits, reverse patches written below backups/<plan.id>,
-                    THEN `History::load` + `add_entry`, THEN the plan is stored under plans/<plan.id>.json
+                    THEN (since 6667a82) the plan is stored under plans/<plan.id>.json, THEN `History::load` +
+                    `add_entry` — the commit point; if that fails the stored plan is removed again
+                    (before 6667a82: entry first, then the plan; `Cfg.planBeforeEntry`)
     undo.rs         `undo_renaming` (eligibility: entry is not a revert, no entry has `revert_of == id`),
                     `redo_renaming` (eligibility: some entry has `revert_of == id`; `redo_of` is never written,
                     the revert is not consumed; re-applies the STORED plan under id `redo-<id>-<seconds>`)
@@ -84,21 +86,31 @@ structure Cfg where
   undoPrevalidate : Bool
   /-- `redo_renaming` checks the stored plan against every file before it calls `apply_plan` -/
   redoPrevalidate : Bool
+  /-- 6667a82: `apply_plan` stores plans/<id>.json BEFORE the history entry (the entry is the commit point) and removes
+      it again when the entry cannot be recorded; false = the entry first, then the plan -/
+  planBeforeEntry : Bool
+  /-- the revert id is built on the ROOT plan id of the entry (`redo-…-<ts>` wrapping stripped) instead of the entry id;
+      false in every version of the code so far — a seeded change (seeded/C10c) has it -/
+  revertIdOfRoot : Bool
   deriving DecidableEq, Repr
 
 /-- the code as it is: REGENERATED from the source on every run (`translate/history_flags.py`) -/
 def Cfg.current : Cfg :=
   { earlyDupCheck := Gen.HistoryFlags.earlyDupCheck, redoOnce := Gen.HistoryFlags.redoOnce,
-    undoPrevalidate := Gen.HistoryFlags.undoPrevalidate, redoPrevalidate := Gen.HistoryFlags.redoPrevalidate }
+    undoPrevalidate := Gen.HistoryFlags.undoPrevalidate, redoPrevalidate := Gen.HistoryFlags.redoPrevalidate,
+    planBeforeEntry := Gen.HistoryFlags.planBeforeEntry, revertIdOfRoot := Gen.HistoryFlags.revertIdOfRoot }
 /-- the code before c3d511b and 07a4584 -/
 def Cfg.beforeFixes : Cfg :=
-  { earlyDupCheck := false, redoOnce := false, undoPrevalidate := false, redoPrevalidate := false }
+  { earlyDupCheck := false, redoOnce := false, undoPrevalidate := false, redoPrevalidate := false,
+    planBeforeEntry := false, revertIdOfRoot := false }
 /-- the code after those two commits, without the pre-validations -/
 def Cfg.withoutPrevalidation : Cfg :=
-  { earlyDupCheck := true, redoOnce := true, undoPrevalidate := false, redoPrevalidate := false }
-/-- all four checks -/
+  { earlyDupCheck := true, redoOnce := true, undoPrevalidate := false, redoPrevalidate := false,
+    planBeforeEntry := false, revertIdOfRoot := false }
+/-- all four checks, the plan stored before the entry (the code since 6667a82) -/
 def Cfg.full : Cfg :=
-  { earlyDupCheck := true, redoOnce := true, undoPrevalidate := true, redoPrevalidate := true }
+  { earlyDupCheck := true, redoOnce := true, undoPrevalidate := true, redoPrevalidate := true,
+    planBeforeEntry := true, revertIdOfRoot := false }
 
 inductive ApplyRes (Tree Backup : Type) where
   | ok (t : Tree) (b : Backup)   -- every file edited; `b` = the reverse patches that were written
@@ -146,6 +158,9 @@ def lookup {α : Type} (m : List (EId H × α)) (i : EId H) : Option α :=
 def put {α : Type} (m : List (EId H × α)) (i : EId H) (a : α) : List (EId H × α) :=
   (m.filter (fun e => !(e.1 == i))) ++ [(i, a)]
 
+def del {α : Type} (m : List (EId H × α)) (i : EId H) : List (EId H × α) :=
+  m.filter (fun e => !(e.1 == i))
+
 def hasId (es : List (Entry H)) (i : EId H) : Bool := es.any (fun e => e.id == i)
 
 def findEntry (es : List (Entry H)) (i : EId H) : Option (Entry H) := es.find? (fun e => e.id == i)
@@ -176,6 +191,10 @@ def resolve (es : List (Entry H)) (forUndo : Bool) : Target H → Option (EId H)
 
 abbrev W (Tree Plan Backup H : Type) := World Tree Plan Backup H
 
+/-- `revert-<id>-<unix seconds>`: on the entry id, or (seeded variant) on its root plan id -/
+def revertId (cfg : Cfg) (i : EId H) (now : Nat) : EId H :=
+  .revert (if cfg.revertIdOfRoot then i.root else i) now
+
 /-- `History::add_entry`: duplicate check, then push and save -/
 def addEntry (es : List (Entry H)) (e : Entry H) : Option (List (Entry H)) :=
   if hasId es e.id then none else some (es ++ [e])
@@ -194,7 +213,10 @@ def applyWithId (cfg : Cfg) (ops : Ops Tree Plan Backup H) (w : W Tree Plan Back
     let w1 : W Tree Plan Backup H :=
       { w with tree := t', backups := put w.backups id (match old with | some o => ops.merge o b | none => b) }
     match addEntry w.entries { id := id, revertOf := none } with
-    | none => (w1, .failed)                                   -- the same message, after the tree was changed
+    | none =>
+      -- the same message, after the tree was changed; since 6667a82 the plan file was already written and is
+      -- removed again (content edits are not rolled back)
+      (if cfg.planBeforeEntry then { w1 with plans := del w.plans id } else w1, .failed)
     | some es => ({ w1 with entries := es, plans := put w.plans id p }, .ok)
 
 def stepRename (cfg : Cfg) (ops : Ops Tree Plan Backup H) (w : W Tree Plan Backup H) (search replace : Bytes) :
@@ -220,7 +242,7 @@ def stepUndo (cfg : Cfg) (ops : Ops Tree Plan Backup H) (w : W Tree Plan Backup 
             -- with the pre-validation the same patches were tried in memory first: refused, nothing touched
             if cfg.undoPrevalidate then (w, .rejected) else ({ w with tree := t' }, .failed)
           | .ok t' =>
-            match addEntry w.entries { id := .revert i w.clock, revertOf := some i } with
+            match addEntry w.entries { id := revertId cfg i w.clock, revertOf := some i } with
             | none => ({ w with tree := t' }, .failed)
             | some es => ({ w with tree := t', entries := es }, .ok)
         | _, _ => (w, .rejected)                               -- plan file / reverse patches missing
